@@ -435,6 +435,23 @@ func genC08(t *rapid.T) AxisCase {
 		}
 		r := math.Round(lo + (hi-lo)*f)
 		steps = append(steps, Step{T: "abs", Sub: a.Sub, Code: a.Code, Val: int32(r)})
+		// now and then the stick creeps across a threshold one raw unit at a time (on a 16-bit axis that is 1/32768 of travel
+		// per event) and stays there
+		if rapid.IntRange(0, 11).Draw(t, "creep") == 0 {
+			th := rapid.SampledFrom([]float64{0.25, 0.245, 0.75, 0.755}).Draw(t, "creepAt")
+			r0 := int64(math.Round(lo + (hi-lo)*th))
+			dir := int64(1)
+			if rapid.Bool().Draw(t, "creepDown") {
+				dir = -1
+			}
+			for k := int64(-3); k <= 3; k++ {
+				v := r0 + dir*k
+				if v < int64(a.Min) || v > int64(a.Max) {
+					continue
+				}
+				steps = append(steps, Step{T: "abs", Sub: a.Sub, Code: a.Code, Val: int32(v)})
+			}
+		}
 	}
 	return AxisCase{D: d, Steps: steps, Logs: rapid.IntRange(0, 7).Draw(t, "logs") == 0}
 }
